@@ -10,13 +10,14 @@ open Iodine Iodine.Gen Iodine.World
 /-- how many of the next packets are lost when the sender is `d` ahead -/
 def lostUp (d : Nat) : Nat := if d ≤ 3 then 0 else 8 - d
 
-theorem recovery_after_giveups_up_imm {P : Par} (hP : P.Ok) (fuel : Nat) (hfuel : 33 ≤ fuel) :
-    ∀ (frames : List (List Nat)) (d : Nat) (w : W), QuietImmD P d 0 w → d < 8 →
+theorem recovery_after_giveups_up_imm_aux {P : Par} (hP : P.Ok) (fuel : Nat) (hfuel : 33 ≤ fuel) {sl sp : Nat}
+    (hsl : 1 ≤ sl ∧ sl ≤ 21) (hsp : 1 ≤ sp ∧ sp ≤ 999) :
+    ∀ (frames : List (List Nat)) (d : Nat) (w : W), QuietImmDS P d 0 sl sp w → d < 8 →
       (d ≤ 3 ∨ 1 ≤ (Server.getUser w.srv P.u).inpacket.fragment) →
       (∀ f ∈ frames, UpFrameOk P (Server.getUser w.srv P.u).tunIp f) →
       (offerAllC P.u fuel w frames).tunS = w.tunS ++ (frames.drop (lostUp d)).map tunImage ∧
       (offerAllC P.u fuel w frames).tunC = w.tunC ∧
-      (lostUp d < frames.length → QuietImm P (offerAllC P.u fuel w frames)) := by
+      (lostUp d < frames.length → QuietImmS P sl sp (offerAllC P.u fuel w frames)) := by
   intro frames
   induction frames with
   | nil => intro d w _ _ _ _; exact ⟨by simp [offerAllC], rfl, fun h => by simp at h⟩
@@ -27,7 +28,7 @@ theorem recovery_after_giveups_up_imm {P : Par} (hP : P.Ok) (fuel : Nat) (hfuel 
     · obtain ⟨w', h1, h2, h3, h4, h5, _⟩ := up_packet_imm_desync_ok hP hq hd f hf.h24 hf.hl hf.bytes hf.dst hf.frags
       have hrun : runPrompt P.u fuel (step w (.offerC f)) = w' :=
         runPrompt_of_steps P.u _ _ _ h1 h2.quiet fuel (by have := hf.frags; omega)
-      have := up_sequence_imm hP fuel hfuel fs w' h2 (fun g hg => by rw [h5]; exact hok g (List.mem_cons_of_mem _ hg))
+      have := up_sequence_imm hP fuel hfuel fs w' h2 (fun g hg => by rw [h5]; exact hok g (List.mem_cons_of_mem _ hg)) hsl
       have hl : lostUp d = 0 := by simp [lostUp, hd]
       unfold offerAllC
       rw [hrun, hl]
@@ -61,6 +62,17 @@ theorem recovery_after_giveups_up_imm {P : Par} (hP : P.Ok) (fuel : Nat) (hfuel 
       · rw [this.1, h3]; simp
       · rw [this.2.1, h4]
 
+/-- **Bounded recovery, upstream, immediate mode** (any freshness slack within the counters' periods). -/
+theorem recovery_after_giveups_up_imm {P : Par} (hP : P.Ok) (fuel : Nat) (hfuel : 33 ≤ fuel) {sl sp : Nat}
+    (frames : List (List Nat)) (d : Nat) (w : W) (hq : QuietImmDS P d 0 sl sp w) (hd : d < 8)
+    (hfr : d ≤ 3 ∨ 1 ≤ (Server.getUser w.srv P.u).inpacket.fragment)
+    (hok : ∀ f ∈ frames, UpFrameOk P (Server.getUser w.srv P.u).tunIp f)
+    (hsl : 1 ≤ sl ∧ sl ≤ 21 := by omega) (hsp : 1 ≤ sp ∧ sp ≤ 999 := by omega) :
+    (offerAllC P.u fuel w frames).tunS = w.tunS ++ (frames.drop (lostUp d)).map tunImage ∧
+    (offerAllC P.u fuel w frames).tunC = w.tunC ∧
+    (lostUp d < frames.length → QuietImmS P sl sp (offerAllC P.u fuel w frames)) :=
+  recovery_after_giveups_up_imm_aux hP fuel hfuel hsl hsp frames d w hq hd hfr hok
+
 /-! ### desynchronised states exist: shift the client's number -/
 
 /-- the joint state with the client's upstream sequence number moved `d` on (what `d` give-ups during an upstream blackout
@@ -68,7 +80,7 @@ do to it) -/
 def shiftUp (w : W) (d : Nat) : W :=
   { w with cs := { w.cs with c := { w.cs.c with outpkt := { w.cs.c.outpkt with seqno := (w.cs.c.outpkt.seqno + d) % 8 } } } }
 
-theorem quietImmD_shiftUp {P : Par} {w : W} (h : QuietImm P w) (d : Nat) : QuietImmD P d 0 (shiftUp w d) := by
+theorem quietImmD_shiftUp {P : Par} {sl sp : Nat} {w : W} (h : QuietImmS P sl sp w) (d : Nat) : QuietImmDS P d 0 sl sp (shiftUp w d) := by
   have hc := h.cst
   have h1 := h.syncu
   have h2 := h.syncd
